@@ -63,15 +63,13 @@ template <> z_interval_t z_interval_t::operator/(const z_interval_t &x) const {
       z_interval_t u(z_bound_t(1), _ub);
       return ((l / x) | (u / x) | z_interval_t(z_number(0)));
     } else {
-      // Neither the dividend nor the divisor contains 0
-      z_interval_t a =
-          (_ub < 0) ? (*this + ((x._ub < 0) ? (x + z_interval_t(z_number(1)))
-                                            : (z_interval_t(z_number(1)) - x)))
-                    : *this;
-      bound_t ll = a._lb / x._lb;
-      bound_t lu = a._lb / x._ub;
-      bound_t ul = a._ub / x._lb;
-      bound_t uu = a._ub / x._ub;
+      // Neither the dividend nor the divisor contains 0: the
+      // truncated division is monotone in each argument so the
+      // extreme values are at the corners.
+      bound_t ll = _lb / x._lb;
+      bound_t lu = _lb / x._ub;
+      bound_t ul = _ub / x._lb;
+      bound_t uu = _ub / x._ub;
       return interval_t(bound_t::min(ll, lu, ul, uu),
                         bound_t::max(ll, lu, ul, uu));
     }
